@@ -57,6 +57,12 @@ package log
 //@ pred headLog(root) := pjoin(logsDir(root), "HEAD")
 //@ pred branchLogDir(root) := pjoin(pjoin(logsDir(root), "refs"), "heads")
 //@ pred branchLog(root, name) := pjoin(branchLogDir(root), name)
+// the log files and their directories are neither object files, object directories nor branch files (C02, C03: appending
+// to a log leaves every object and every branch where it is); from the injectivity of joining valid path components
+//@ lemma [headlog-apart-objects] {C02,C03} forall root string, h string {headLog(root), object.objPath(root, h)} :: len(h) >= 2 ==> headLog(root) != object.objPath(root, h) && headLog(root) != object.objDir(root, h) && logsDir(root) != object.objPath(root, h) && logsDir(root) != object.objDir(root, h)
+//@ lemma [branchlog-apart-objects] {C02,C03} forall root string, name string, h string {branchLog(root, name), object.objPath(root, h)} :: validName(name) && len(h) >= 2 ==> branchLog(root, name) != object.objPath(root, h) && branchLog(root, name) != object.objDir(root, h) && branchLogDir(root) != object.objPath(root, h) && branchLogDir(root) != object.objDir(root, h) && pjoin(logsDir(root), "refs") != object.objPath(root, h) && pjoin(logsDir(root), "refs") != object.objDir(root, h)
+//@ lemma [headlog-apart-refs] {C02,C03} forall root string, b string {headLog(root), store.refPath(root, b)} :: validName(b) ==> headLog(root) != store.refPath(root, b) && logsDir(root) != store.refPath(root, b)
+//@ lemma [branchlog-apart-refs] {C02,C03} forall root string, name string, b string {branchLog(root, name), store.refPath(root, b)} :: validName(name) && validName(b) ==> branchLog(root, name) != store.refPath(root, b) && branchLogDir(root) != store.refPath(root, b) && pjoin(logsDir(root), "refs") != store.refPath(root, b)
 //@ pred validRecType(t) := t == CommitRecord || t == CheckoutRecord || t == BranchRecord || t == ResetRecord
 //@ pred recLine(r) := hexOrZero(r.from) + " " + hexOrZero(r.to) + " " + r.name + " <" + r.email + "> " + r.unixtime + " " + r.timeDiff + "\t" + recTypeStr(r.recType) + ": " + r.message + "\n"
 //@ pred textOf(f, p) := ite(isFile(f, p), content(f, p), "")
